@@ -64,7 +64,15 @@ def gen_source(rng, depth, counter):
     counter[0] += 1
     if depth > 0 and r < 0.45:
       sub = gen_source(rng, depth - 1, counter)
-      d[k] = FrozenDict(sub) if rng.random() < 0.25 else sub
+      r2 = rng.random()
+      if r2 < 0.25:
+        d[k] = FrozenDict(sub)
+      elif r2 < 0.40:
+        # a dict SUBCLASS from the caller (config loaders hand out OrderedDict / defaultdict): a mutable nested dict like any other
+        import collections
+        d[k] = collections.OrderedDict(sub) if r2 < 0.33 else collections.defaultdict(dict, sub)
+      else:
+        d[k] = sub
     elif r < 0.6:
       d[k] = counter[0]
     elif r < 0.7:
